@@ -232,5 +232,28 @@ package closest
 //@   ensures [done.once] len(sent(cSplitDone)) == 1
 //@   ensures [c18.width] implies(len(recv(cIn)) >= 1 && len(recv(cIn)[0].Seq) != len(queries[0].Seq), len(sent(cErr)) == 1)
 
+//@ # C06/C12/C18/C19: the orchestration of `closest` in spawns mode: `go` statements are skipped (the stages have their own
+//@ # contracts), a select is a free choice among its clauses, and what arrives on the channels this call made is an
+//@ # environment stream about which only the stated `assume` clauses are known. Assumed (justified by findClosest's
+//@ # post-condition sent(cOut)[0].qidx == query.Idx with exactly one send, the reader's [idx] post-condition
+//@ # queries[i].Idx == i and the worker wiring proved in splitInput): the nQ results carry the query indices 0..nQ-1, each
+//@ # once, in ANY arrival order (resultOf(k) = arrival position of query k's result); errors put on cErr are non-nil
+//@ # (every stage's contract). Proved: for every arrival order the result table handed to the writer has query k's result
+//@ # in slot k; an error received from any stage, or returned by the writer, is returned to the caller (exit status 1) and
+//@ # a nil return means no stage reported one.
+//@ spec resultOf(k int) int uninterpreted
 //@ func Closest spawns
 //@   modifies everything
+//@   after assign:cResults#1: assume [env.results] forall(k, 0, nQ, 0 <= resultOf(k) && resultOf(k) < nQ && envat(cResults, resultOf(k)).qidx == k) && forall(j, 0, nQ, 0 <= envat(cResults, j).qidx && envat(cResults, j).qidx < nQ && resultOf(envat(cResults, j).qidx) == j)
+//@   after assign:cResults#1: assume [env.errors] forallint(k, envat(cErr, k) != nil)
+//@   loop 1:
+//@     invariant len(recvd(cErr)) == 0 && len(recvd(cResults)) == 0 && nQ == len(queries) && len(QResultsArray) == nQ && freshslice(QResultsArray)
+//@   loop 2:
+//@     invariant len(recvd(cErr)) == 0 && len(recvd(cResults)) == 0 && nQ == len(queries) && len(QResultsArray) == nQ && freshslice(QResultsArray)
+//@   loop 3:
+//@     invariant 0 <= i && i <= nQ && len(recvd(cErr)) == 0 && len(recvd(cResults)) == i && nQ == len(queries) && len(QResultsArray) == nQ && freshslice(QResultsArray)
+//@     invariant [c12.slots] forall(j, 0, i, QResultsArray[envat(cResults, j).qidx] == envat(cResults, j))
+//@   before call:writeClosest#1: assert [c12.slots] forall(k, 0, nQ, QResultsArray[k] == envat(cResults, resultOf(k)) && QResultsArray[k].qidx == k)
+//@   before call:writeClosest#1: assert [c06.writer.args] arg(1) == measure && arg(2) == out
+//@   ensures [c18.error.returned] implies(len(recvd(cErr)) > 0, result == recvd(cErr)[0] && result != nil)
+//@   ensures [c18.nil.means.clean] implies(result == nil, len(recvd(cErr)) == 0)
